@@ -69,6 +69,30 @@ def check_ids(inp):
   m = model.eval_metrics['accuracy_no_eos']
   if shakespeare.EOS not in m.masked_target_values or shakespeare.PAD not in m.masked_target_values:
     return f'accuracy_no_eos masks {m.masked_target_values}, which does not contain the dataset EOS id {shakespeare.EOS}'
+  # the packaged TASK wires dataset and model together: the model the task returns scores exactly the labels the task's
+  # dataset produces and counts its OOV label (load_split stubbed with an in-memory split: no network)
+  from fedjax.training import tasks
+  real_load = shakespeare.load_split
+  shakespeare.load_split = lambda split, mode='sqlite', cache_dir=None: fedjax.InMemoryFederatedData(
+      {b'c0': {'snippets': np.array([b'To be, \xc3\xa9or not~', b'\x00that is'], dtype=object)}})
+  try:
+    _, test, tmodel = tasks.get_task('SHAKESPEARE_CHARACTER')
+    tparams = tmodel.init(jax.random.PRNGKey(0))
+    for cid, dset in test.clients():
+      y = dset.all_examples()['y']
+      batch = next(iter(dset.padded_batch(batch_size=2)))
+      width = tmodel.apply_for_eval(tparams, batch).shape[-1]
+      if width != shakespeare.VOCAB_SIZE:
+        return (f"get_task('SHAKESPEARE_CHARACTER'): the model scores {width} labels, the task's dataset produces labels in "
+                f'[0, {shakespeare.VOCAB_SIZE})')
+      nonpad = y != shakespeare.PAD
+      want_rate = float((y[nonpad] == shakespeare.OOV).mean())
+      got = fedjax.evaluate_model(tmodel, tparams, dset.padded_batch(batch_size=2))
+      if want_rate <= 0 or abs(float(got['token_oov_rate']) - want_rate) > 1e-6 or abs(float(got['num_tokens']) - float(nonpad.sum())) > 1e-6:
+        return (f"get_task('SHAKESPEARE_CHARACTER'): token_oov_rate {float(got['token_oov_rate'])} / num_tokens "
+                f"{float(got['num_tokens'])}; the dataset labels give {want_rate} / {float(nonpad.sum())} (OOV id {shakespeare.OOV})")
+  finally:
+    shakespeare.load_split = real_load
 
 
 def check_cifar(inp):
